@@ -540,7 +540,9 @@ func C02Fragmented() {
 // exactly its bytes (whatever the decoder keeps per signature must still belong to that signature after any
 // number of other signatures).
 func C02ManySignatures() {
-	layouts := []string{"(C)", "(l)", "(Ci)", "(sW)"}
+	// five layouts: a count that shares no factor with the table sizes an implementation is likely to use,
+	// so that a signature and the one a power-of-two positions later never have the same layout
+	layouts := []string{"(C)", "(l)", "(Ci)", "(sW)", "(wCl)"}
 	mk := func(k int) (string, []byte) {
 		sig := layouts[k%len(layouts)] + "<S" + strconv.Itoa(k) + ",a"
 		var data []byte
@@ -552,9 +554,12 @@ func C02ManySignatures() {
 		case 2:
 			sig += ",b"
 			data = zzCat([]byte{sym.U8("c")}, zzLE32(sym.U32("i")))
-		default:
+		case 3:
 			sig += ",b"
 			data = zzCat(zzStr(sym.Str("s", 1)), []byte{sym.U8("w0"), sym.U8("w1")})
+		default:
+			sig += ",b,c"
+			data = zzCat([]byte{sym.U8("w0"), sym.U8("w1"), sym.U8("c")}, zzLE64(sym.U64("l")))
 		}
 		return sig + ">", data
 	}
